@@ -7,6 +7,7 @@ use rand::Rng;
 use serde_json::{json, Value};
 
 use response_time_analysis::demand::RequestBound;
+use response_time_analysis::fixed_point;
 use response_time_analysis::time::{Duration, Offset, Service};
 
 use crate::describe::*;
@@ -259,5 +260,56 @@ pub fn run_time(ctx: &mut Ctx) {
         let k = if a < (1 << 20) { ctx.rng.gen_range(0..=1000u64) } else { ctx.rng.gen_range(0..=15u64) };
         let list: Vec<u64> = vec![a, b, a / 2, 1, 0];
         ctx.call("time_ops", json!({"a": a, "b": b, "k": k, "list": list}), time_ops_call);
+    }
+}
+
+/// fixed_point::search_with_offset at large magnitudes: the workload is the request bound of a few sporadic tasks plus
+/// a constant; the closure logs every interval length it is asked about and the value it returns, i.e. the iteration
+/// the implementation ran (checked step by step against the closed forms by Apalache).
+fn big_search_call(inp: &Value) -> Value {
+    let sup = build_supply(&inp["supply"]);
+    let parts: Vec<Value> = inp["tasks"].as_array().unwrap().iter()
+        .map(|t| json!({"k": "rbf", "a": {"k": "sporadic", "T": t["T"], "J": t["J"]}, "c": {"k": "scalar", "c": t["C"]}}))
+        .collect();
+    let agg = build_demand(&json!({"k": "agg", "of": parts}));
+    let b0 = u(&inp["B0"]);
+    let log = std::cell::RefCell::new(Vec::<(u64, u64)>::new());
+    let wl = |x: Duration| {
+        let v = u64::from(agg.service_needed(x)) + b0;
+        log.borrow_mut().push((u64::from(x), v));
+        s(v)
+    };
+    let res = fixed_point::search_with_offset(&sup, Offset::from(u(&inp["off"])), d(u(&inp["lim"])), &wl);
+    let l = log.borrow();
+    json!({"res": crate::outcome::result_json(res), "asked": l.iter().map(|p| p.0).collect::<Vec<u64>>(),
+           "w": l.iter().map(|p| p.1).collect::<Vec<u64>>()})
+}
+
+pub fn run_search(ctx: &mut Ctx) {
+    let n = if ctx.thorough { 600 } else { 80 };
+    for i in 0..n {
+        // a small system, blown up by an odd factor and then perturbed (so it is not an exact multiple any more)
+        let k = (1u64 << ctx.rng.gen_range(36..=54)) + 2 * ctx.rng.gen_range(0..500u64) + 1;
+        let nt = ctx.rng.gen_range(1..=3usize);
+        let tmin = 4 * nt as u64;
+        let tasks: Vec<Value> = (0..nt).map(|_| {
+            let t = ctx.rng.gen_range(tmin..=tmin + 12) * k + ctx.rng.gen_range(0..1000);
+            let j = if ctx.rng.gen_bool(0.5) { 0 } else { ctx.rng.gen_range(0..=20) * k + ctx.rng.gen_range(0..1000) };
+            let c = ctx.rng.gen_range(1..=3) * k + ctx.rng.gen_range(0..1000);
+            json!({"T": t, "J": j, "C": c})
+        }).collect();
+        let b0 = if ctx.rng.gen_bool(0.5) { 0 } else { ctx.rng.gen_range(0..=3) * k + ctx.rng.gen_range(0..1000) };
+        let p = ctx.rng.gen_range(2..=8u64) * k + ctx.rng.gen_range(0..1000);
+        let q = (p / 8 * ctx.rng.gen_range(5..=8)).max(1).min(p);
+        let dl = ctx.rng.gen_range(q..=p);
+        let supply = match i % 3 {
+            0 => json!({"k": "dedicated"}),
+            1 => json!({"k": "periodic", "Q": q, "P": p}),
+            _ => json!({"k": "constrained", "Q": q, "D": dl, "P": p}),
+        };
+        // offsets inside the initial supply gap keep the premise "demand not yet met at the offset" (W(1) >= 1)
+        let off = if i % 3 == 0 || ctx.rng.gen_bool(0.5) { 0 } else { ctx.rng.gen_range(0..=(p - q)) };
+        let lim = if ctx.rng.gen_bool(0.3) { ctx.rng.gen_range(1..=8) * k } else { 400 * k };
+        ctx.call("big_search", json!({"supply": supply, "tasks": tasks, "B0": b0, "off": off, "lim": lim}), big_search_call);
     }
 }
